@@ -14,7 +14,7 @@ PROP = dict(
           "'/', '*', '-' (and blanks for direct Tidy calls), optional leading/trailing/doubled separators; 1-3 values from "
           "{0,-0,+-Inf,NaN,min subnormal,max,1,random bits,ordinary}. Each case is checked through Tidy, the Reader, "
           "UnitMetadataMap.Get/GetAssumption/GetBetter and .unit filters by written and base unit. Non-trivial = the written unit "
-          "contains 'ns' or 'MB' as component or substring. Values are written in shortest, plain-decimal or 17-digit form; one case in six pads every line with 1-100 further measurements before/after the one under test (31, 32, 33, 63, 64, 65 in all among the sizes) and reads the filter's Match of every result only after all results were matched. Optionally the unit metadata is declared a second time under the base unit's name (no error, no new record). Unit 'history': 1-3 inputs of 1-4 lines with 1-4 measurements each "
+          "contains 'ns' or 'MB' as component or substring. Values are written in shortest, plain-decimal or 17-digit form or as the exact midpoint to the next float (a tie); both names of a unit in one disjunction select the measurement once and the empty name nothing; one case in six pads every line with 1-100 further measurements before/after the one under test (31, 32, 33, 63, 64, 65 in all among the sizes) and reads the filter's Match of every result only after all results were matched. Optionally the unit metadata is declared a second time under the base unit's name (no error, no new record). Unit 'history': 1-3 inputs of 1-4 lines with 1-4 measurements each "
           "(14 units, one metric possibly written twice on a line in scaled and base form) through ONE Reader with Reset between "
           "inputs, optionally trimmed in place between Scans by a literal/regexp/negated .unit filter; every measurement must be the "
           "normalised form of its own text with the original kept exactly when something was normalised (non-trivial = more than one "
